@@ -184,7 +184,13 @@ def stress(exe, tsan, rnd, nthreads, nops, verdict, label, perms=False):
                  "readconfig 41 - - %s %s %s %s" % (hx(name), hx(sfx), hx(dl), hx(cm)), "dump 41", "free 41",
                  # drop-ins without main configuration file (<project>.d below the thread's own root prefix)
                  "newopt 42 %s" % hx("ROOT_PREFIX=" + tr),
-                 "readconfig 42 %s %s - %s %s %s" % (hx(name), hx("/usr/etc"), hx(sfx), hx(dl), hx(cm)), "dump 42", "free 42"]
+                 "readconfig 42 %s %s - %s %s %s" % (hx(name), hx("/usr/etc"), hx(sfx), hx(dl), hx(cm)), "dump 42", "free 42",
+                 # reads that FAIL, each in its own way (a link to nowhere: found but not to be opened; no such file; a malformed
+                 # line; a directory in the file's place): what a failing read leaves behind must not disturb the other threads
+                 "readfile 43 %s %s %s" % (hx(tr + "/dangling." + sfx), hx(dl), hx(cm)), "free 43",
+                 "readfile 44 %s %s %s" % (hx(tr + "/none." + sfx), hx(dl), hx(cm)), "free 44",
+                 "readfile 45 %s %s %s" % (hx(tr + "/bad." + sfx), hx(dl), hx(cm)), "free 45",
+                 "readfile 46 %s %s %s" % (hx(tr + "/usr"), hx(dl), hx(cm)), "free 46"]
         for _ in range(3):
             pos = rnd.randrange(1, max(2, len(h.script) - len(h.live) - 1))
             h.script[pos:pos] = reads
@@ -201,6 +207,8 @@ def stress(exe, tsan, rnd, nthreads, nops, verdict, label, perms=False):
             lines.append("file %s %s" % (hx("%s/etc/%s.%s.d/b.%s" % (tr, name, sfx, sfx)), hx("%c c\nB%sb%d\nK%setc%d\n" % (cm, dl, t, dl, t))))
             lines.append("file %s %s" % (hx("%s/etc/%s.d/p.%s" % (tr, name, sfx)), hx("P%sp%d\n" % (dl, t))))
             lines.append("file %s %s" % (hx("%s/usr/etc/%s.d/q.%s" % (tr, name, sfx)), hx("Q%sq%d\nP%susr\n" % (dl, t, dl))))
+            lines.append("symlink %s %s" % (hx(tr + "/no/such/target"), hx("%s/dangling.%s" % (tr, sfx))))
+            lines.append("file %s %s" % (hx("%s/bad.%s" % (tr, sfx)), hx("A%s1\n[broken\nB%s2\n" % (dl, dl))))
         files = []
         for t, h in enumerate(hists):
             sf = "%s/p%d.script" % (R, t)
@@ -319,7 +327,7 @@ def check(pid, tier, seed):
     rc = verdict.finish()
     cov = {"states": states, "transitions": states, "traces_validated_against_impl": okf + oks,
            "evaluations": nsched + nthr, "distinct_nontrivial": sum(1 for _ in range(nsched)) + sum(n for n, _ in rounds if n >= 4),
-           "rule": "MC_Threads: all call-level interleavings of 2 threads x 5 calls and 3 threads x 3 calls on private objects (Isolation holds; the negative control with a shared static buffer violates it), and of 2 threads x 4 calls / 3 threads x 2 calls whose read goes through a callback entry point modelled as TWO steps (up to the callback, after it: the other threads' reads happen inside this read; the line number of the entry read is part of the results); %d interleavings exported as schedules and replayed deterministically on real threads with hand-over between calls and inside the callback, per-thread results compared with the model; stress: %s threads with random programs (setters/getters of all types, listings, ext getter, write, merge, reads of private files and private trees through econf_readDirs, econf_readConfig with PARSING_DIRS and the drop-ins-only form of econf_readConfig) run concurrently and alone, results compared call by call (every second round with econf_requirePermissions in force, set by the main thread before the workers start and satisfied by every file, so that all reads take the checking paths), each thread's trace validated by the sequential specification Trace_KeyFile; the same programs under ThreadSanitizer (races are violations unless located in a data symbol referenced by econf_errLocation: %s). non-trivial = interleaving in which threads alternate / stress with >= 4 threads." % (
+           "rule": "MC_Threads: all call-level interleavings of 2 threads x 5 calls and 3 threads x 3 calls on private objects (Isolation holds; the negative control with a shared static buffer violates it), and of 2 threads x 4 calls / 3 threads x 2 calls whose read goes through a callback entry point modelled as TWO steps (up to the callback, after it: the other threads' reads happen inside this read; the line number of the entry read is part of the results); %d interleavings exported as schedules and replayed deterministically on real threads with hand-over between calls and inside the callback, per-thread results compared with the model; stress: %s threads with random programs (setters/getters of all types, listings, ext getter, write, merge, reads of private files and private trees through econf_readDirs, econf_readConfig with PARSING_DIRS and the drop-ins-only form of econf_readConfig, and reads that fail - a link to nowhere, a missing file, a malformed file, a directory) run concurrently and alone, results compared call by call (every second round with econf_requirePermissions in force, set by the main thread before the workers start and satisfied by every file, so that all reads take the checking paths), each thread's trace validated by the sequential specification Trace_KeyFile; the same programs under ThreadSanitizer (races are violations unless located in a data symbol referenced by econf_errLocation: %s). non-trivial = interleaving in which threads alternate / stress with >= 4 threads." % (
                nsched, "/".join(str(n) for n, _ in rounds[:6]), "derived from the binary"),
            "samples": [{"schedule": "0101010101", "threads": 2}], "exhaustive": False, "stress_calls": ncalls,
            "trusted_base": ["TLC 1.8.0", "gcc ASan/UBSan", "clang ThreadSanitizer", "drv.c threads command"]}
